@@ -1949,7 +1949,7 @@ def p_instanceDeclaration(p):
                     pprop.value = objs if cprop.is_array else objs[0]
                     pprop.embedded_object = embedded_object_type
             else:
-                if pval:
+                if pval is not None:
                     ival_is_array = isinstance(pval, list)
                     if cprop.is_array != ival_is_array:
                         raise MOFParseError(
